@@ -51,6 +51,12 @@ func (e *Engine) verifyFunc(fi *FuncInfo) (rep *FuncReport) {
 	c := fi.Contract
 	rep = &FuncReport{Key: fi.Key, Tags: c.tags()}
 	e.curTags = rep.Tags
+	e.trackAlloc = false
+	for _, cl := range c.Clauses {
+		if strings.Contains(cl.Text, "fresh(") {
+			e.trackAlloc = true
+		}
+	}
 	defer func() {
 		if r := recover(); r != nil {
 			if u, ok := r.(unsupported); ok {
